@@ -78,7 +78,8 @@ def run(ctx):
             cls, meth = ty.split('::')[-2], ty.split('::')[-1]
             rows = P.table(ctx, p, ['class'])
             got = [(x.cond_strs(), x.value_str()) for x in rows]
-            want = [(['class ~ amq_protocol::protocol::AMQPClass::%s(amq_protocol::protocol::%s::AMQPMethod::%s(_))' % (cls.capitalize(), cls, meth)], 'Ok(class.%s.0.%s.0)' % (cls.capitalize(), meth)),
+            want = [(['class ~ amq_protocol::protocol::AMQPClass::%s(_)' % cls.capitalize(), 'class.%s.0 ~ amq_protocol::protocol::%s::AMQPMethod::%s(_)' % (cls.capitalize(), cls, meth)],
+                     'Ok(class.%s.0.%s.0)' % (cls.capitalize(), meth)),
                     (['class ~ not amq_protocol::protocol::AMQPClass::%s(amq_protocol::protocol::%s::AMQPMethod::%s(_))' % (cls.capitalize(), cls, meth)], 'errors::FrameUnexpectedSnafu::fail(errors::FrameUnexpectedSnafu)')]
             r.eq('try_from:%s::%s' % (cls, meth), got, want, ctx.site(p), why='a reply of another type must be rejected, the right one unwrapped')
         r.check('try_from-impls', n == 22, None, built=n, expected=22)
